@@ -144,6 +144,24 @@ void world_end(World &W) {
 
 // ------------------------------------------------------------------ helpers
 static inline bool bytes_differ(const void *a, const void *b, size_t n) { return n != 0 && memcmp(a, b, n) != 0; }
+// The CRC (either flavour) is affine over GF(2) in the last four bytes of the buffer: solve them so that the CRC is `target`.
+static bool force_crc(std::vector<u8> &d, u32 target, bool legacy) {
+    u64 len = d.size();
+    if (len < 4) return false;
+    auto crc = [&](void) { return legacy ? ref::crc_legacy(d.data(), len) : ref::crc_std(d.data(), len); };
+    memset(&d[len - 4], 0, 4);
+    u32 c0 = crc();
+    u32 col[32];
+    for (int b = 0; b < 32; b++) { d[len - 4 + b / 8] = (u8) (1u << (b % 8)); col[b] = crc() ^ c0; d[len - 4 + b / 8] = 0; }
+    u32 want = target ^ c0, x = 0; u32 basis[32] = {0}, comb[32] = {0};
+    for (int b = 0; b < 32; b++) {
+        u32 v = col[b], cm = 1u << b;
+        for (int t = 31; t >= 0 && v; t--) if ((v >> t) & 1) { if (!basis[t]) { basis[t] = v; comb[t] = cm; v = 0; break; } v ^= basis[t]; cm ^= comb[t]; }
+    }
+    for (int t = 31; t >= 0 && want; t--) if ((want >> t) & 1) { if (!basis[t]) break; want ^= basis[t]; x ^= comb[t]; }
+    for (int b = 0; b < 32; b++) if ((x >> b) & 1) d[len - 4 + b / 8] |= (u8) (1u << (b % 8));
+    return want == 0;
+}
 static std::vector<u8> make_data(u64 len, int pat, u64 dseed) {
     std::vector<u8> d(len);
     Rng r(dseed);
@@ -152,24 +170,11 @@ static std::vector<u8> make_data(u64 len, int pat, u64 dseed) {
     case 2: for (u64 i = 0; i < len; i++) d[i] = (u8) (i + dseed); break;
     case 3: if (len) d[r.below(len)] = (u8) (1 + r.below(255)); break;
     case 4: std::fill(d.begin(), d.end(), 0xff); break;
-    case 5: case 6: {
+    case 5: case 6: case 7: {
         // random bytes whose standard CRC-32 is exactly 0 (pat 5) or 0xffffffff (pat 6): special values a stored checksum
-        // can take. The CRC is affine over GF(2) in the last four bytes: solve for them.
+        // can take (pat 7 starts the same way; op_put then re-solves for the value that makes the *header's* CRC zero)
         for (u64 i = 0; i < len; i++) d[i] = (u8) r.next();
-        if (len < 4) break;
-        u32 target = pat == 5 ? 0u : 0xffffffffu;
-        memset(&d[len - 4], 0, 4);
-        u32 c0 = ref::crc_std(d.data(), len);
-        u32 col[32];
-        for (int b = 0; b < 32; b++) { d[len - 4 + b / 8] = (u8) (1u << (b % 8)); col[b] = ref::crc_std(d.data(), len) ^ c0; d[len - 4 + b / 8] = 0; }
-        // gaussian elimination: find x with XOR_{b in x} col[b] == target ^ c0
-        u32 want = target ^ c0, x = 0; u32 basis[32] = {0}, comb[32] = {0};
-        for (int b = 0; b < 32; b++) {
-            u32 v = col[b], cm = 1u << b;
-            for (int t = 31; t >= 0 && v; t--) if ((v >> t) & 1) { if (!basis[t]) { basis[t] = v; comb[t] = cm; v = 0; break; } v ^= basis[t]; cm ^= comb[t]; }
-        }
-        for (int t = 31; t >= 0 && want; t--) if ((want >> t) & 1) { if (!basis[t]) break; want ^= basis[t]; x ^= comb[t]; }
-        for (int b = 0; b < 32; b++) if ((x >> b) & 1) d[len - 4 + b / 8] |= (u8) (1u << (b % 8));
+        force_crc(d, pat == 6 ? 0xffffffffu : 0u, false);
         break;
     }
     default:
@@ -440,6 +445,27 @@ static void op_put(World &W, const Json &op) {
     u64 len = (u64) op["len"].num();
     std::vector<u8> data = make_data(len, op["pat"].in(0), (u64) op["dseed"].num());
     int al = op["al"].in(16);
+    if (op["pat"].in(0) == 7 && s.cfg.k == 1 && s.cfg.ct == ref::CT_CRC32 && len >= 4 && !op.has("bfail")) {
+        // data chosen so that the *metadata* checksum of data fragment 0 comes out as exactly 0 (a legal CRC value): a first
+        // encode shows the header this instance writes; its CRC is affine in the stored payload checksum T, so solve T, then
+        // solve the data's last four bytes for a payload CRC of T
+        char **e0 = nullptr, **p0 = nullptr; u64 f0 = 0;
+        char *in0 = (char *) thread_arena().place(data.data(), data.size(), Arena::RIGHT);
+        cur().api = "encode";
+        if (liberasurecode_encode(s.desc, in0, len, &e0, &p0, &f0) == 0) {
+            bool lg = env_legacy(W);
+            if (f0 >= ref::HDR && ref::ld32((u8 *) e0[0] + ref::OFF_SIZE) == len) {
+                auto hcrc = [&](u32 T) { std::vector<u8> h((u8 *) e0[0], (u8 *) e0[0] + ref::META); ref::st32(&h[ref::OFF_CHKSUM], T); return lg ? ref::crc_legacy(h.data(), ref::META) : ref::crc_std(h.data(), ref::META); };
+                u32 c0 = hcrc(0), col[32]; for (int b = 0; b < 32; b++) col[b] = hcrc(1u << b) ^ c0;
+                u32 want = c0, T = 0, basis[32] = {0}, comb[32] = {0};
+                for (int b = 0; b < 32; b++) { u32 v = col[b], cm = 1u << b; for (int t = 31; t >= 0 && v; t--) if ((v >> t) & 1) { if (!basis[t]) { basis[t] = v; comb[t] = cm; v = 0; break; } v ^= basis[t]; cm ^= comb[t]; } }
+                for (int t = 31; t >= 0 && want; t--) if ((want >> t) & 1) { if (!basis[t]) break; want ^= basis[t]; T ^= comb[t]; }
+                if (want == 0 && force_crc(data, T, lg)) W.fault("DATA.header-crc-zero");
+            }
+            liberasurecode_encode_cleanup(s.desc, e0, p0);
+        }
+        thread_arena().release_all();
+    }
     char *in = (char *) thread_arena().place(data.data(), data.size(), al == 16 ? Arena::RIGHT : (al & 15));
     char **ed = nullptr, **ep = nullptr; u64 flen = 0;
     size_t live0 = own::live();
@@ -468,6 +494,7 @@ static void op_put(World &W, const Json &op) {
         W.trace.addbuf("put.frag", f, flen);
     }
     if (n > 0 && flen >= ref::HDR) learn_bever(W, s, fr[0].data());
+    if (n > 0 && flen >= ref::HDR && ref::ld32(fr[0].data() + ref::OFF_METACRC) == 0) W.probe("put.header-crc-zero");
     // --- oracles on what encode produced
     bool legacy = env_legacy(W);
     for (int i = 0; i < n && flen >= ref::HDR; i++) {
